@@ -133,7 +133,10 @@ def reg_work(res, tie, fmt, choice, fs, variant):
     for nm, wrap in (("bytes-subclass", MyBytes), ("memoryview", memoryview),
                      ("memoryview-of-writable-buffer", lambda b: memoryview(bytearray(b))),
                      ("memoryview-slice", lambda b: memoryview(b"\x00" + bytes(b) + b"\x00")[1:-1]),
-                     ("memoryview-strided", lambda b: memoryview(bytes(x for y in bytes(b) for x in (y, 0)))[::2])):
+                     ("memoryview-strided", lambda b: memoryview(bytes(x for y in bytes(b) for x in (y, 0)))[::2]),
+                     # memoryviews whose items are chars / signed bytes (what `.cast()` or some C extensions hand out)
+                     ("memoryview-cast-char", lambda b: memoryview(bytes(b)).cast("c")),
+                     ("memoryview-cast-signed", lambda b: memoryview(bytes(b)).cast("b"))):
         c2 = dict(c, raw_id=wrap(c["raw_id"]), client_data_json=wrap(c["client_data_json"]), attestation_object=wrap(c["attestation_object"]))
         outcomes[nm] = cases.run_reg(c2, dict(e, challenge=wrap(e["challenge"])))
     res.evaluations += len(outcomes)
@@ -157,6 +160,7 @@ def work(tasks, idx):
         kw = {"flags": core.UP | (core.UV if variant % 4 else 0), "faults": fs, "require_uv": variant % 2 == 0}
         if variant % 3 == 0:
             kw["origin_list"] = ["https://example.com"] if variant % 2 else ["https://q.example", "https://example.com"]
+        kw["challenge"] = bytes((variant * 37 + 200 + 11 * i) % 256 for i in range(32))     # bytes above 0x7f among them
         a, e, eff = faults.build_assertion(c, **kw)
         base = cases.run_auth(a, e)
         res.evaluations += 1
@@ -201,7 +205,9 @@ def work(tasks, idx):
         for nm, wrap in (("bytes-subclass", MyBytes), ("memoryview", memoryview),
                          ("memoryview-of-writable-buffer", lambda b: memoryview(bytearray(b))),
                          ("memoryview-slice", lambda b: memoryview(b"\x00" + bytes(b) + b"\x00")[1:-1]),
-                         ("memoryview-strided", lambda b: memoryview(bytes(x for y in bytes(b) for x in (y, 0)))[::2])):
+                         ("memoryview-strided", lambda b: memoryview(bytes(x for y in bytes(b) for x in (y, 0)))[::2]),
+                         ("memoryview-cast-char", lambda b: memoryview(bytes(b)).cast("c")),
+                         ("memoryview-cast-signed", lambda b: memoryview(bytes(b)).cast("b"))):
             a2, e2 = byte_forms(a, e, wrap)
             outcomes[nm] = cases.run_auth(a2, e2)
         res.evaluations += len(outcomes) - 1
